@@ -399,3 +399,12 @@ func VIntersectOpen(ct ClipType, fr FillRule, openHot bool, e2 VEdge, hot2 bool,
 	c.intersectEdges(ael[0], ael[1], Point64{X: 5, Y: 5})
 	return ao.outrec != nil, c.succeeded
 }
+
+// VAreaOP runs the real areaOP on a synthetic output ring.
+func VAreaOP(ring Path64) float64 {
+	o := &OutRec{}
+	return areaOP(vSynthRing(o, ring))
+}
+
+// VAreaTriangle exposes areaTriangle.
+func VAreaTriangle(a, b, c Point64) float64 { return areaTriangle(a, b, c) }
